@@ -340,7 +340,16 @@ def check_escape(ctx) -> None:
             if len(call.args) > 1 or call.keywords:
                 raise AnalysisError(f"io.sbml.{name}: flags are not analysed")
             return call.args[0].value
-        raise AnalysisError(f"io.sbml.{name} is not a literal re.compile(...)")
+        # not a literal call: take the pattern object the module's own top-level statements compute
+        import re as _re
+        from ..interp import Interp
+
+        got = Interp(prog, (), [], {}, globals_={})._module_env(unit).get(name)
+        if isinstance(got, _re.Pattern):
+            if got.flags & ~_re.UNICODE:
+                raise AnalysisError(f"io.sbml.{name}: flags are not analysed")
+            return got.pattern
+        raise AnalysisError(f"io.sbml.{name} cannot be computed as a compiled pattern from the module's top-level statements")
 
     import re._constants as sc  # type: ignore
 
@@ -421,7 +430,52 @@ def check_escape(ctx) -> None:
         ctx.bad("C10.escape", esc, esc.node.body[-1], f"the escape helper and the unescape helper are not ord/chr inverses with the __N__ framing: {bad[0]}")
     else:
         ctx.ok("C10.escape", esc, esc.node.body[-1], "escape(c) = '__' + decimal ord(c) + '__' and unescape(token) = chr(int(group 1)) (evaluated; straight-line helpers)")
-    # pairs
+    # pairs, evaluated: reader(writer(id)) == id and writer(id) is a valid SId, for ids that need every kind of escaping
+    # (identifiers that already spell an escape token are known finding K5 and outside this clause)
+    import re as _re
+    from ..interp import Interp
+
+    helpers = [f"{MOD}.{n}" for n in ("_escape_non_alphanum", "_number_to_chr", "_clip")] + [f"{MOD}._f_{k}{sfx}" for k in ("gene", "specie", "reaction", "group") for sfx in ("", "_rev")]
+    helpers += [f.qualname for f in prog.all_funcs() if f.unit is unit and f.parent is None and f.cls is None and f.qualname not in helpers and f.name.startswith("_") and len(f.node.body) <= 12 and f.name not in ("_sbml_to_model", "_model_to_sbml")]
+    it = Interp(prog, (), helpers, {}, globals_={})
+    SID = _re.compile(r"^[A-Za-z_][A-Za-z0-9_]*$")
+    ids = ["abc", "a-b", "\u00e9\u4e2d", "G_x", "M_M_x", "R_", "x__y", "a.b:c", "1abc", "a b", "x[c]", "_", "a_45_b", "EX_glc__D_e", "ala__L_c", "(e)", "a/b\\c", "0"]
+    pairs_failed = False
+    for kind in ("gene", "specie", "reaction", "group"):
+        w = prog.func(MOD, f"_f_{kind}_rev")
+        r = prog.func(MOD, f"_f_{kind}")
+        wrong = []
+        for sid in ids:
+            try:
+                enc = it.call(w, [sid], {})
+                dec = it.call(r, [enc], {})
+            except EvalRaise as exc:
+                wrong.append(f"{sid!r}: raises {exc.exc_type}")
+                continue
+            except Unknown as exc:
+                raise AnalysisError(f"C10.escape: the {kind} id functions cannot be evaluated: {exc}")
+            if not isinstance(enc, str) or not SID.match(enc):
+                wrong.append(f"{sid!r} is written as {enc!r}, which is not a valid SBML SId")
+            elif dec != sid:
+                wrong.append(f"{sid!r} is written as {enc!r} and read back as {dec!r}")
+        if wrong:
+            pairs_failed = True
+            ctx.bad("C10.escape", w, w.node, f"{kind} identifiers do not survive writer + reader: {wrong[0]}" + (f" (+{len(wrong) - 1} more)" if len(wrong) > 1 else ""))
+        else:
+            ctx.ok("C10.escape", w, f"{kind} id round trip", f"{len(ids)} identifiers (every class of escaped character, prefixes that repeat, leading digits): written form is a valid SId and the reader returns the identifier (evaluated, real `re`)")
+    # pairs, as spelled: explains only (reported when the evaluated round trip fails as well)
+    real_bad = ctx.bad
+    if not pairs_failed:
+        ctx.bad = lambda *a, **k: ctx.note(f"structural reading not confirmed by the evaluated id round trip (no report): {a[3] if len(a) > 3 else a}"[:300])  # type: ignore[method-assign]
+    try:
+        _check_pairs_spelling(ctx, prog)
+    finally:
+        if not pairs_failed:
+            del ctx.bad
+    _check_escape_rest(ctx, prog, unit, rel, ret, ok, frm)
+
+
+def _check_pairs_spelling(ctx, prog) -> None:
     for kind in ("gene", "specie", "reaction", "group"):
         w = prog.func(MOD, f"_f_{kind}_rev")
         r = prog.func(MOD, f"_f_{kind}")
@@ -437,6 +491,9 @@ def check_escape(ctx) -> None:
             ctx.ok("C10.escape", w, w.node.body[-1], f"{kind}: escape then prefix; the reader unescapes then clips the same prefix ({norm(pw)})")
         else:
             ctx.bad("C10.escape", w if not w_ok else r, (w if not w_ok else r).node, f"{kind}: the writer's steps (escape, add prefix) are not undone by the reader (unescape, clip prefix)")
+
+
+def _check_escape_rest(ctx, prog, unit, rel, ret, ok, frm) -> None:
     clip = prog.func(MOD, "_clip")
     bad = []
     for sid, prefix, want in (("M_abc", "M_", "abc"), ("abc", "M_", "abc"), ("M_M_a", "M_", "M_a"), ("MM_a", "M_", "MM_a"), ("aM_", "M_", "aM_"), ("M_", "M_", "")):
@@ -1190,5 +1247,12 @@ def run(ctx) -> None:
     ctx.guard(check_objective_written, ctx)
     ctx.guard(check_member_lookup, ctx)
     check_annot(ctx)
-    c08.check_siblings(ctx)
+    # legacy rule texts (notes, fbc-less models) go through GPR.from_string: the text -> rule clause is evaluated here as
+    # well (shared with C08) and decides what the reading of GPRCleaner.visit_BinOp only explains
+    from . import gprform
+
+    ctx.rule("C08.table", "text -> rule: GPR.from_string evaluated end to end (shared with C08)", floor=1)
+    n0, d0 = len(ctx.findings), len(ctx.deferred)
+    ctx.guard(gprform.check_from_string, ctx, "C08.table")
+    c08.check_siblings(ctx, len(ctx.findings) > n0 or len(ctx.deferred) > d0)
     c02.check_owner(ctx)
